@@ -17,7 +17,7 @@ CHECKS = {
    technique="explicit-state model checking of the real core (BFS over request histories, snapshot de-duplication, reference-model oracle)"),
 
  "C02": dict(cat="model_checking", engine="wbmc-core/graph", ref="DESIGN.md §3 C02",
-   text="Every interleaving (request granularity) of 2-3 clients running cget-then-cset cycles on shared keys on the real core, with a plain writer, a deleter and a rogue client sending stale/future/u64-boundary versions; per step: cset succeeds iff the carried version equals the current one and raises it by one, plain set never replaces a CAS value, versions observed by a client never go backwards while the key exists, the stored value is the last acknowledged update.",
+   text="Every interleaving (request granularity) of 2-3 clients running cget-then-cset cycles on shared keys on the real core, with a plain writer, a deleter, a rogue client sending stale/future/u64-boundary versions, value-preserving csets, and refused/accepted csets on keys below and above the CAS key; per step: cset succeeds iff the carried version equals the current one and raises it by one, plain set never replaces a CAS value, versions observed by a client never go backwards while the key exists, the stored value is the last acknowledged update.",
    note="Atomicity of one request is structural (the core is owned by one task that processes one channel message to completion) and is assumed, not explored at memory level; at u64::MAX the version cannot be raised and the request must be refused.",
    technique="explicit-state model checking of the real core (all interleavings of client programs at request granularity, de-duplicated)"),
  "C03": dict(cat="model_checking", engine="wbmc-core/graph", ref="DESIGN.md §3 C03",
@@ -41,7 +41,7 @@ CHECKS = {
    note="For wildcard-first patterns refusing, skipping $SYS, or skipping all but the client's own three entries are all accepted as conforming.",
    technique="explicit-state model checking of the real core (BFS over request histories, snapshot de-duplication, reference-model oracle)"),
  "C13": dict(cat="model_checking", engine="wbmc-core/graph", ref="DESIGN.md §3 C13",
-   text="Explicit-state search over sequences of request lines of two concurrent sessions through the real protocol handler (Proto, v0 and v1) and the real core task: every request kind with valid and invalid arguments; per request exactly one terminal message with its transaction id and of the protocol's kind (or an Err whose code is one of the applicable reasons), subscription events carry the subscribe's id and follow its Ack, a failing request neither ends the session nor disturbs the other session; the core's tables must equal the reference after every line.",
+   text="Explicit-state search over sequences of request lines of two concurrent sessions through the real protocol handler (Proto, v0 and v1) and the real core task: every request kind with valid and invalid arguments; per request exactly one terminal message with its transaction id and of the protocol's kind (or an Err whose code is one of the applicable reasons), subscription events carry the subscribe's id and follow its Ack, a failing request neither ends the session nor disturbs the other session; the core's tables must equal the reference after every line. Further scenarios: bursts of 2-3 lines through the real serve() loop over a socket pair (pipelined), and three sessions locking, queueing twice for and releasing one key in every order.",
    note="In-process sessions fed one line at a time (within one connection the real serve loop is sequential as well); polling order between forwarding tasks is tokio's FIFO and not enumerated; handshake messages are not requests.",
    technique="explicit-state model checking of the real protocol handler + core task (BFS over line sequences of two sessions, snapshot de-duplication, protocol-table reference)"),
  "C17": dict(cat="model_checking", engine="wbmc-core/tree", ref="DESIGN.md §3 C17",
@@ -53,8 +53,8 @@ CHECKS = {
    note="The reference takes the content at the flush from the instance itself and applies grave goods / last wills with the documented relation; v1 has no registration file.",
    technique="exhaustive enumeration of a bounded input space through the real flush and load code (round trip oracle)"),
  "C10": dict(cat="fault_enumeration", engine="wbmc-core/persist + crashfs", ref="DESIGN.md §3 C10",
-   text="Exhaustive crash-point enumeration under the process-crash model: a child process runs a history of 3 (quick) / 4 (thorough) flushes with pairwise distinct stores and registrations under an LD_PRELOAD shim that kills it immediately before each mutating file-system call (plus torn variants of every *.tmp write); from every distinct directory state left behind a second run (load, mutate, flush, mutate, flush) is killed at each of its calls again; after every crash the real load() must recover exactly the last completed or the in-progress flush with that same flush's registrations applied.",
-   note="Completed file operations persist in order, only *.tmp files can be torn (the property's crash model); synchronous flush variant; crash points at the libc boundary.",
+   text="Exhaustive crash-point enumeration under the process-crash model: a child process runs a history of 3 (quick) / 4 (thorough) flushes with pairwise distinct stores and registrations under an LD_PRELOAD shim that kills it immediately before each mutating file-system call (plus torn variants of every *.tmp write); from every distinct directory state left behind two second runs (load, mutate, flush, mutate, flush: once into new states, once back to the state the slot written next held before) are checked on completion and killed at each of their calls again; after every crash the real load() must recover exactly the last completed or the in-progress flush with that same flush's registrations applied.",
+   note="Completed file operations persist in order, only *.tmp files can be torn (the property's crash model); the flushes alternate between the synchronous variant (shutdown / follower path) and a tick of the real periodic flush task; crash points at the libc boundary.",
    technique="exhaustive fault (crash-point) enumeration of the real flush/load code with an LD_PRELOAD process-kill injector, two crash levels"),
  "C14": dict(cat="exploration", engine="wbmc-core/c14", ref="DESIGN.md §3 C14",
    text="Exhaustive enumeration of every variant of ClientMessage (23), ServerMessage (8) and the cluster sync messages (LeaderSyncMessage, ClientWriteCommand, StateSync built by the real export) over small field alphabets (u64-boundary ids and versions, keys with empty/unicode/newline/quote/U+2028, JSON terms of depth <= 2 whose object keys collide with envelope field names, optional fields present/absent): the encoding must be one line, deterministic, accepted by write_line_and_flush, and decode (from_str and the real receive_msg line reader) to an equal message.",
